@@ -71,9 +71,10 @@ theorem C12_readonly_fails_on_witness :
       ≠ runSession [5] [(.readonly 5 [7], false), (.other, false)] [] := by
   decide
 
-/-- **C12** (order of the state file): a new process that sources what was persisted holds the
-option, all functions and everything written behind them -- also functions whose bodies can only
-be parsed while `extglob` is set, and also when `extglob` is off at the time the state is written. -/
+/-- **C12** (order of the state file): a new process that sources what was persisted holds the options, all
+functions, aliases and variables exactly as they were -- also functions whose bodies can only be parsed while
+`extglob` is set (whatever `extglob` is when the state is written), functions that share their name with an
+alias, variables that were not exported while `allexport` is set, and `errtrace` next to `extdebug`. -/
 theorem C12_state_file_order (s : Scrut.StateFile.St) :
     Scrut.StateFile.source Scrut.StateFile.fresh (Scrut.StateFile.persist s) = s :=
   Scrut.StateFile.source_persist s
@@ -83,40 +84,62 @@ again when the state is written, a variable stands for the rest of the state -- 
 has neither `g` nor the variable -/
 theorem C12_old_order_fails_on_witness :
     Scrut.StateFile.source Scrut.StateFile.fresh
-        (Scrut.StateFile.persistOld { extglob := false, funcs := [⟨7, true⟩], vars := [(1, 2)] })
+        (Scrut.StateFile.persistOld { extglob := false, funcs := [⟨7, true⟩], vars := [⟨1, 2, false⟩] })
       = { extglob := false, funcs := [], vars := [] } ∧
     Scrut.StateFile.source Scrut.StateFile.fresh
-        (Scrut.StateFile.persist { extglob := false, funcs := [⟨7, true⟩], vars := [(1, 2)] })
-      = { extglob := false, funcs := [⟨7, true⟩], vars := [(1, 2)] } := by
+        (Scrut.StateFile.persist { extglob := false, funcs := [⟨7, true⟩], vars := [⟨1, 2, false⟩] })
+      = { extglob := false, funcs := [⟨7, true⟩], vars := [⟨1, 2, false⟩] } := by
   decide
 
 /-- the order before fix 6fb091a (`set +o` in front of `shopt -p`): `set -E` with `extdebug` off -- restoring
 `shopt -u extdebug` afterwards switches `errtrace` off again, the next process does not have it -/
 theorem C12_set_first_order_fails_on_witness :
     Scrut.StateFile.source Scrut.StateFile.fresh
-        (Scrut.StateFile.persistSetFirst { extglob := false, errtrace := true, funcs := [], vars := [(1, 2)] })
-      = { extglob := false, errtrace := false, funcs := [], vars := [(1, 2)] } := by
+        (Scrut.StateFile.persistSetFirst { extglob := false, errtrace := true, funcs := [], vars := [⟨1, 2, false⟩] })
+      = { extglob := false, errtrace := false, funcs := [], vars := [⟨1, 2, false⟩] } := by
+  decide
+
+/-- the order before fix bb09a36 (aliases in front of the functions): a function `f` and an alias `f` -- the
+definition of the function is a syntax error, the next process has neither the function nor the variable
+behind it -/
+theorem C12_aliases_first_order_fails_on_witness :
+    Scrut.StateFile.source Scrut.StateFile.fresh
+        (Scrut.StateFile.persistAliasesFirst { extglob := false, funcs := [⟨7, false⟩], aliases := [7], vars := [⟨1, 2, false⟩] })
+      = { extglob := true, funcs := [], aliases := [7], vars := [] } := by
+  decide
+
+/-- the order before fix 75c64cd (options in front of everything): `X=1; set -a` -- the variable that was not
+exported comes back exported -/
+theorem C12_options_first_order_fails_on_witness :
+    Scrut.StateFile.source Scrut.StateFile.fresh
+        (Scrut.StateFile.persistOptionsFirst { extglob := false, allexport := true, funcs := [], vars := [⟨1, 2, false⟩] })
+      = { extglob := false, allexport := true, funcs := [], vars := [⟨1, 2, true⟩] } := by
   decide
 
 /-- **C12** (the hook that writes the state file): whatever `errexit` and `noclobber` are in the shell of the
 test case and whether or not an earlier test case left a state file, the complete state is written and the
 test case ends with the exit status of its own command. -/
 theorem C12_hook_survives_options (h : Scrut.StateFile.Hook) (s : Scrut.StateFile.St) (code : Nat) :
-    Scrut.StateFile.writeState true true h s code = (some (Scrut.StateFile.persist s), code) :=
+    Scrut.StateFile.writeState (Scrut.StateFile.hookCmds s) true h code = (some (Scrut.StateFile.persist s), code) :=
   Scrut.StateFile.writeState_now h s code
 
-/-- the hook before fix 296e2dd (`shopt -p extglob` unguarded) under `set -e` with `extglob` off: it ends behind
-that command -- the variables are not written and the test case, whose command ended with 0, ends with 1 -/
+/-- the hook between fixes e15e02e and 296e2dd (`shopt -p extglob` unguarded) under `set -e` with `extglob` off: it
+ends behind that command -- the variables are not written and the test case, whose command ended with 0, ends
+with 1 -/
 theorem C12_unguarded_hook_fails_on_witness :
-    Scrut.StateFile.writeState false true ⟨true, false, none⟩ { extglob := false, funcs := [], vars := [(1, 2)] } 0
-      = (some [.setExtdebug false, .setExtglob false, .setErrtrace false, .setExtglob true, .setExtglob false], 1) := by
+    Scrut.StateFile.writeState
+        (Scrut.StateFile.hookCmdsUnguarded { extglob := false, funcs := [], vars := [⟨1, 2, false⟩] }) true ⟨true, false, none⟩ 0
+      = (some [.setExtdebug false, .setExtglob false, .setErrtrace false, .setAllexport false, .setExtglob true,
+          .setExtglob false], 1) := by
   decide
 
 /-- the redirection before fix 79ceed0 (`>` instead of `>|`) under `set -C` when an earlier test case left a
 state file: the old file stays, nothing of this test case is carried -/
 theorem C12_clobber_hook_fails_on_witness :
-    Scrut.StateFile.writeState true false ⟨false, true, some [.setVar 1 1]⟩ { extglob := false, funcs := [], vars := [(1, 2)] } 0
-      = (some [.setVar 1 1], 0) := by
+    Scrut.StateFile.writeState
+        (Scrut.StateFile.hookCmds { extglob := false, funcs := [], vars := [⟨1, 2, false⟩] }) false
+        ⟨false, true, some [.setVar ⟨1, 1, false⟩]⟩ 0
+      = (some [.setVar ⟨1, 1, false⟩], 0) := by
   decide
 
 /-! Non-vacuity of `Benign`: assign, export, modify, unset an own variable. -/
